@@ -260,6 +260,7 @@ func (d *structDesc) fromDefsFields(ff []defs.Field) {
 
 type tField struct {
 	ID     uint16
+	Name   string // Go field name, for error messages
 	Offset uintptr
 	Type   *tType
 
@@ -303,6 +304,7 @@ func (f *tField) EncodedSize() int {
 
 func (f *tField) fromDefsField(x defs.Field) {
 	f.ID = x.ID
+	f.Name = x.Name
 	f.Offset = uintptr(x.F)
 	f.Type = newTType(x.Type)
 	f.Spec = x.Spec
